@@ -688,6 +688,7 @@ package workflow
 //@   ensures [the-results-are-those-of-the-preparation] called(prepare, 1) && result == callres(prepare, 1, 0) && result1 == callres(prepare, 1, 1)
 //@ func (*executor).prepare
 //@   requires e != nil && e.logger != nil && e.config != nil && e.stepRegistry != nil && workflow != nil
+//@   ensures [the-workflow-it-is-given-is-left-as-it-was] workflow.Outputs == old(workflow.Outputs) && workflow.Output == old(workflow.Output)
 //@   requires [step-ids-are-not-empty] forall s string :: indom(workflow.Steps, s) ==> s != ""
 //@   ensures [workflow-or-error] (result1 == nil) != (result == nil)
 //@   ensures [a-prepared-workflow-satisfies-its-representation-invariant] result1 == nil ==> typeis(result, *executableWorkflow) && wfexec(result.(*executableWorkflow))
